@@ -56,14 +56,14 @@ theorem progress_lifting (e : Elem α β σ) (Inv : σ → Prop) (hstep : ∀ s 
     (hwin : ∀ s ins, Inv s → (∀ i ∈ ins, Coop i) → ins.length = K → 1 ≤ e.hsCount s ins)
     (n : Nat) (s : σ) (ins : List (In α)) (hs : Inv s) (hc : ∀ i ∈ ins, Coop i) (hlen : n * K ≤ ins.length) :
     n ≤ e.hsCount s ins :=
-  hsCount_ge_of_window e Inv hstep K hwin n s ins hs hc hlen
+  hsCount_ge_of_window e Inv hstep Coop K hwin n s ins hs hc hlen
 
 /-- Same for deliveries (no livelock). -/
 theorem delivery_lifting (e : Elem α β σ) (Inv : σ → Prop) (hstep : ∀ s i, Inv s → Inv (e.step s i)) (K : Nat)
     (hwin : ∀ s ins, Inv s → (∀ i ∈ ins, Coop i) → ins.length = K → 1 ≤ (e.delivered s ins).length)
     (n : Nat) (s : σ) (ins : List (In α)) (hs : Inv s) (hc : ∀ i ∈ ins, Coop i) (hlen : n * K ≤ ins.length) :
     n ≤ (e.delivered s ins).length :=
-  delivered_ge_of_window e Inv hstep K hwin n s ins hs hc hlen
+  delivered_ge_of_window e Inv hstep Coop K hwin n s ins hs hc hlen
 
 /-! ## PipeValid -/
 
